@@ -1244,6 +1244,23 @@ func (c *Ctx) ruleRemainingLength(rr *RuleRep) {
 		})
 		if has7F && has80 && stride7 {
 			rr.OK("readPacket/length-decoder", rp.Pos(), "decoder accumulates (b & 0x7F) << shift with stride 7 and continues on b & 0x80")
+			// … and accepts all four length bytes: the decoded length can have 28 significant bits (fewer: a legal four-byte
+			// remaining length, bodies of 2,097,152 bytes and more, is rejected; more is C06's concern)
+			eachInstr(rp, func(in ssa.Instruction) {
+				mk, ok := in.(*ssa.MakeSlice)
+				if !ok {
+					return
+				}
+				if _, isK := constInt(mk.Len); isK {
+					return
+				}
+				wa := &widthAnalysis{c: c, memo: map[ssa.Value]int{}, prog: map[ssa.Value]bool{}}
+				if w := wa.width(mk.Len); w < 28 && w > 0 && w%7 == 0 {
+					rr.Bad("readPacket/length-decoder-range", in.Pos(), "the remaining-length decoder stops after %d length bytes (at most %d significant bits): a legal four-byte remaining length is rejected, so a body of %d bytes or more sent by the broker ends the link instead of being delivered", w/7, w, 1<<uint(w))
+				} else if w == 28 {
+					rr.OK("readPacket/length-decoder-range", in.Pos(), "up to four length bytes are accepted (28 significant bits)")
+				}
+			})
 		} else {
 			rr.Bad("readPacket/length-decoder", rp.Pos(), "the remaining-length decoder does not use the mirror constants (0x7F payload mask, 0x80 continuation bit, shift stride 7)")
 		}
